@@ -10,7 +10,7 @@
    before fixes/C09-close-wedge.patch) or [Fixed]; theorems stated for every [v] hold for both.
    Back-off arithmetic is exact integer arithmetic; the code goes through float64, which is exact
    under the guard [float_exact c] (2*MaxDelay <= 2^53 ns) carried by the correspondence check. *)
-From Kit Require Import C09.Spec C09.Model C09.Check C09.Proofs C09.Proofs_close.
+From Kit Require Import C09.Spec C09.Model C09.Check C09.Proofs C09.Proofs_close C09.Proofs_seq.
 
 (* SIGNALS NEVER EXCEED ADDS, with exact accounting: every Add call is covered by a spawned
    signal, or still pending, or was made after Close (Fixed: returns at once); every spawned
@@ -207,6 +207,48 @@ Print Assumptions C09_close_wedge_refuted.
 Theorem C09_timer_contract : forall tc due, drain_blocks tc due = false.
 Proof. exact drain_never_blocks. Qed.
 Print Assumptions C09_timer_contract.
+
+(* REFINEMENT OF THE SPECIFICATION'S REFERENCE.  For EVERY configuration NewCoalescing accepts,
+   both variants, both consumers (prompt / slow) and EVERY script, of any length, of Adds, clock
+   advances by any non-negative amounts and drains, the model - driven one operation at a time,
+   each run-loop iteration spelled out as its events (Add; TakeToken; HandleToken; LoopTop /
+   Advance; TakeTimer; TimerFire; LoopTop) - produces exactly the observations (signals per
+   operation, window started with which length / ended) of the reference machine of C09/Spec.v
+   section 1, which was written from the property text.  So on settled timelines every clause of the
+   text the reference encodes (first Add immediate, window doubling up to the maximum, cap, one
+   signal per burst at the window's end and only if something is pending) is a theorem about the
+   model for all scripts, not only an oracle on sampled ones.  [seq_model_run] is evaluated by
+   the correspondence check on every sequential script the harness records. *)
+Theorem C09_seq_refines : forall v c slow ops, cfg_ok c -> Forall op_ok ops ->
+  seq_model_run v c slow (start1 c) ops = Some (ref_run_g slow c ref_init (singletons ops)).
+Proof. exact seq_refines. Qed.
+Print Assumptions C09_seq_refines.
+
+(* ... hence, in the very form the correspondence check evaluates both sides, the spec oracle
+   accepts the observations of a sequential script EXACTLY when they are the model's: the oracle
+   is sound and complete with respect to the model. *)
+Theorem C09_seq_oracle_iff_model : forall v c slow ks obs, cfg_ok c ->
+  forallb is_seq_step ks = true -> Forall step_ok ks ->
+  (seqg_oracle slow c (map sops_of ks) obs = true <->
+   seq_model_run v c slow (start1 c) (flat_map sops_of ks) = Some obs).
+Proof. exact seq_check_link. Qed.
+Print Assumptions C09_seq_oracle_iff_model.
+
+(* NO LATER THAN THE END OF ITS QUIET WINDOW.  From every reachable state in which the run loop
+   waits in its select with a window open (and no Close call started), the passage of time to the
+   window's end and the run loop's own two steps - no caller, no consumer - end in a state whose
+   clock reads exactly the deadline, in which everything that was pending is covered, the window is
+   closed, and - if anything was pending - exactly one signal was spawned, stamped with the
+   deadline. *)
+Theorem C09_signal_at_window_end : forall v c s, cfg_ok c -> reachable v c s ->
+  run s = R_select -> has_timer s = true -> now s <= deadline s -> clo s = C_idle -> clo2 s = C_idle ->
+  exists s', exec v c s [Advance (deadline s - now s); TakeTimer; TimerFire] = Some s' /\
+    now s' = deadline s /\ pending s' = 0 /\ has_timer s' = false /\
+    covered s' = covered s + pending s /\
+    spawned s' = spawned s + (if 0 <? pending s then 1 else 0) /\
+    (0 < pending s -> In (OSig (deadline s)) (olog s')).
+Proof. exact signal_at_window_end. Qed.
+Print Assumptions C09_signal_at_window_end.
 
 (* ORACLE SOUNDNESS.  The boolean oracles the correspondence check evaluates on the
    implementation's observations are equivalent to the spec predicates of C09/Spec.v. *)
